@@ -1,10 +1,267 @@
 import Driver.Util
+import Hv.Query.Routes
 
-/-! Placeholder: the line-protocol driver of domain C08 is not written yet. -/
+/-! Line-protocol driver of domain C08 (same ops as `/verif/harness/c08.go`): the model's
+    accelerated route and full-scan route for every query.
+
+    reply for `q`: `b=<items> s=<items>`; an `<items>` is `nd` when the order inside a tie class
+    decides the result (paging / MaxResults cutting through records with equal sort values).
+    `\t#F:<finding>` is appended when the model's two routes disagree; the finding names each
+    currently-false fact whose repair (alone) restores agreement or changes the outcome. -/
 namespace Driver.C08
+open Hv.Query
 
-def run (_args : List String) : IO UInt32 := do
-  IO.eprintln "drv: domain C08 has no driver yet"
-  return 2
+/-! ### parsing -/
+
+def isIdent (c : Char) : Bool := c.isAlphanum || c == '_'
+
+/-- number prefix of a char list -/
+def takeNum (cs : List Char) : String × List Char :=
+  let neg := cs.head? == some '-'
+  let cs' := if neg then cs.drop 1 else cs
+  let ds := cs'.takeWhile Char.isDigit
+  ((if neg then "-" else "") ++ String.ofList ds, cs'.drop ds.length)
+
+partial def parseValue (cs : List Char) : Option (Value × List Char) :=
+  match cs with
+  | 'n' :: r => some (.nil, r)
+  | 'T' :: r => some (.bool true, r)
+  | 'F' :: r => some (.bool false, r)
+  | 'i' :: r => let (n, r') := takeNum r; n.toInt?.map (fun i => (.int i, r'))
+  | 'u' :: r => let (n, r') := takeNum r; n.toNat?.map (fun i => (.uint i, r'))
+  | 'f' :: r => let (n, r') := takeNum r; n.toInt?.map (fun i => (.flt i, r'))
+  | 't' :: r => let (n, r') := takeNum r; n.toInt?.map (fun i => (.time i, r'))
+  | '\'' :: r =>
+    let s := r.takeWhile (· != '\'')
+    some (.str (String.ofList s), (r.drop s.length).drop 1)
+  | '[' :: r =>
+    let rec elems (cs : List Char) (acc : List Value) : Option (List Value × List Char) :=
+      match cs with
+      | ']' :: r => some (acc.reverse, r)
+      | ',' :: r => elems r acc
+      | _ => match parseValue cs with
+        | some (v, r) => elems r (v :: acc)
+        | none => none
+    (elems r []).map (fun (l, r') => (.arr l, r'))
+  | '{' :: r =>
+    let rec fields (cs : List Char) (acc : List (String × Value)) : Option (List (String × Value) × List Char) :=
+      match cs with
+      | '}' :: r => some (acc.reverse, r)
+      | ',' :: r => fields r acc
+      | _ =>
+        let k := cs.takeWhile (· != ':')
+        match parseValue ((cs.drop k.length).drop 1) with
+        | some (v, r) => fields r ((String.ofList k, v) :: acc)
+        | none => none
+    (fields r []).map (fun (l, r') => (.map l, r'))
+  | _ => none
+
+def parseSeg (s : String) : Seg :=
+  if s == "#len" then .len
+  else if s.endsWith "[*]" then .wild (s.dropEnd 3).toString
+  else .field s
+
+def parsePath (s : String) : Path := if s == "" then [] else (s.splitOn ".").map parseSeg
+
+def opOf : String → Option Op
+  | "eq" => some .eq | "ne" => some .ne | "gt" => some .gt | "ge" => some .ge | "lt" => some .lt | "le" => some .le
+  | "sin" => some .strIn | "i32in" => some .i32In | "i64in" => some .i64In
+  | "empty" => some .isEmpty | "nempty" => some .isNotEmpty
+  | _ => none
+
+def opName : Op → String
+  | .eq => "eq" | .ne => "ne" | .gt => "gt" | .ge => "ge" | .lt => "lt" | .le => "le"
+  | .strIn => "sin" | .i32In => "i32in" | .i64In => "i64in" | .isEmpty => "empty" | .isNotEmpty => "nempty"
+
+def parseLeaf (s : String) : Option Leaf :=
+  match s.splitOn "~" with
+  | [path, op, cv, label] =>
+    match opOf op with
+    | none => none
+    | some o =>
+      let base : Leaf := { path := parsePath path, op := o, cv := .none, strVals := [], intVals := [], label := label }
+      if cv == "-" then some base else
+      match cv.splitOn ":" with
+      | t :: rest =>
+        let v := ":".intercalate rest
+        match o with
+        | .strIn => some { base with strVals := v.splitOn ";" }
+        | .i32In | .i64In =>
+          let ns := (v.splitOn ";").filterMap String.toInt?
+          if ns.length == (v.splitOn ";").length then some { base with intVals := ns } else none
+        | _ =>
+          if t == "s" then some { base with cv := .str v }
+          else if t == "b" then some { base with cv := .bool (v == "T") }
+          else match v.toInt? with
+            | none => none
+            | some n =>
+              (match t with
+               | "i8" => some (CV.i8 n) | "i16" => some (CV.i16 n) | "i32" => some (CV.i32 n) | "i64" => some (CV.i64 n)
+               | "u8" => some (CV.u8 n.toNat) | "u16" => some (CV.u16 n.toNat) | "u32" => some (CV.u32 n.toNat)
+               | "u64" => some (CV.u64 n.toNat)
+               | "f32" => some (CV.f32 n) | "f64" => some (CV.f64 n)
+               | _ => none).map (fun c => { base with cv := c })
+      | [] => none
+  | _ => none
+
+/-- split on top-level commas -/
+def splitTop (cs : List Char) : List (List Char) :=
+  let rec go (cs : List Char) (depth : Nat) (cur : List Char) (acc : List (List Char)) : List (List Char) :=
+    match cs with
+    | [] => (cur.reverse :: acc).reverse
+    | '(' :: r => go r (depth + 1) ('(' :: cur) acc
+    | ')' :: r => go r (depth - 1) (')' :: cur) acc
+    | ',' :: r => if depth == 0 then go r depth [] (cur.reverse :: acc) else go r depth (',' :: cur) acc
+    | c :: r => go r depth (c :: cur) acc
+  go cs 0 [] []
+
+partial def parseGroup (s : String) : Option Group :=
+  let cs := s.toList
+  match cs with
+  | c :: '(' :: rest =>
+    if (c != '&' && c != '|') || rest.getLast? != some ')' then none else
+    let inner := rest.dropLast
+    let items := (splitTop inner).filter (fun i => !i.isEmpty)
+    let step (acc : Option (List Leaf × List Group)) (it : List Char) : Option (List Leaf × List Group) :=
+      match acc with
+      | none => none
+      | some (ls, gs) =>
+        if it.head? == some '&' || it.head? == some '|' then
+          (parseGroup (String.ofList it)).map (fun g => (ls, gs ++ [g]))
+        else (parseLeaf (String.ofList it)).map (fun l => (ls ++ [l], gs))
+    (items.foldl step (some ([], []))).map (fun (ls, gs) => Group.mk (c == '|') ls gs)
+  | _ => none
+
+/-! ### state -/
+
+structure DSt where
+  cfg : Cfg
+  store : List Rec
+
+def upsert (store : List Rec) (k : String) (body : Option Value) (c u e : Int) : List Rec :=
+  match store.find? (·.key == k) with
+  | none => store ++ [{ key := k, body := body, created := c, updated := u, expire := e }]
+  | some o =>
+    store.map (fun r => if r.key == k then
+      { r with body := body, created := if c != 0 then c else o.created,
+               updated := if u != 0 then u else o.updated, expire := if e != 0 then e else o.expire } else r)
+
+def renderItems (l : List Item) : String :=
+  ",".intercalate (l.map (fun it => if it.2.isEmpty then it.1 else it.1 ++ "[" ++ "+".intercalate it.2 ++ "]"))
+
+/-- are there two rows with the same sort value (time indexes)? -/
+def hasTies (s : Slot) (rows : List Rec) : Bool :=
+  s != .key && (rows.zip (rows.drop 1)).any (fun p => ts s p.1 == ts s p.2)
+
+/-- the rows a route pages over (before offset/limit), to decide determinacy -/
+def scanRows (q : Query) (store : List Rec) : List Rec := indexRead q store
+
+def bucketRows (cfg : Cfg) (q : Query) (store : List Rec) : Option (List Rec) :=
+  match q.filter with
+  | none => none
+  | some g =>
+    let go (hints : List Hint) : List Rec :=
+      let c0 := candidates cfg store hints
+      let c1 := if cfg.bucketChecksAttr then c0.filter (carries q.slot) else c0
+      let c2 := if hasWindow q && (!cfg.bucketWindowTimeOnly || q.slot != .key) then c1.filter (inWindow q) else c1
+      sortRecs q.slot q.asc c2
+    match planFilter cfg g with
+    | .bypass => none
+    | .and hints _ => some (go hints)
+    | .orUnion hints => some (go hints)
+
+def cuts (q : Query) : Bool := q.from_ != 0 || q.limit != 0 || q.maxResults != 0
+
+def good (cfg : Cfg) : Cfg := { cfg with
+  indexableOps := [.eq, .strIn, .i32In, .i64In], excludesSpecialPaths := true, planOrBypassOnSubGroups := true,
+  scanEqCanonical := true, bucketPagingAfterFilter := true, scanPagingAfterFilter := true, labelReattach := true,
+  bucketChecksAttr := true, lookupInDedupes := true, unionDedupes := true, bucketWindowTimeOnly := true }
+
+/-- single-fact repairs, with the finding each one stands for -/
+def repairs (cfg : Cfg) : List (String × (Cfg → Cfg)) :=
+  (if !cfg.scanEqCanonical then [("C08-scan-equality-not-canonical", fun c => { c with scanEqCanonical := true })] else []) ++
+  (if !cfg.excludesSpecialPaths then [("C08-special-path-hinted", fun c => { c with excludesSpecialPaths := true })] else []) ++
+  (if !(cfg.bucketPagingAfterFilter && cfg.scanPagingAfterFilter) then
+    [("C08-paging-before-residual", fun c => { c with bucketPagingAfterFilter := true, scanPagingAfterFilter := true })] else []) ++
+  (if !cfg.labelReattach then [("C08-indexed-leg-label-dropped", fun c => { c with labelReattach := true })] else []) ++
+  (if !cfg.bucketChecksAttr then [("C08-bucket-route-ignores-index-attribute", fun c => { c with bucketChecksAttr := true })] else []) ++
+  (if !cfg.bucketWindowTimeOnly then [("C08-window-on-key-index", fun c => { c with bucketWindowTimeOnly := true })] else []) ++
+  (if !cfg.planOrBypassOnSubGroups then [("C08-or-union-with-subgroups", fun c => { c with planOrBypassOnSubGroups := true })] else []) ++
+  (if cfg.indexableOps != [.eq, .strIn, .i32In, .i64In] then
+    [("C08-non-equality-operator-hinted", fun c => { c with indexableOps := [.eq, .strIn, .i32In, .i64In] })] else []) ++
+  (if !(cfg.lookupInDedupes && cfg.unionDedupes) then
+    [("C08-duplicate-candidates", fun c => { c with lookupInDedupes := true, unionDedupes := true })] else [])
+
+/-- all sublists of a list, smallest first within each size class is not needed: we sort by length -/
+def sublists {α : Type} : List α → List (List α)
+  | [] => [[]]
+  | x :: xs => let r := sublists xs; r ++ r.map (x :: ·)
+
+/-- the findings that explain a disagreement: the members of the smallest sets of single-fact
+    repairs after which the model's two routes agree on this query -/
+def explain (cfg : Cfg) (store : List Rec) (q : Query) : List String :=
+  let rs := repairs cfg
+  let fixes := (sublists rs).filter (fun sub =>
+    let c := sub.foldl (fun c r => r.2 c) cfg
+    !sub.isEmpty && bucketRoute c store q == scanRoute c store q)
+  match fixes.map List.length |>.min? with
+  | none => ["C08-unexplained"]
+  | some m => ((fixes.filter (·.length == m)).flatMap (·.map (·.1))).eraseDups
+
+def slotOf : String → Option Slot
+  | "key" => some .key | "created" => some .created | "updated" => some .updated | "expire" => some .expire
+  | _ => none
+
+def optT : String → Option (Option Int)
+  | "-" => some none
+  | s => s.toInt?.map some
+
+def step (d : DSt) (line : String) : DSt × String :=
+  match line.splitOn " " with
+  | ["case", _] => ({ d with store := [] }, line)
+  | ["body", k, c, u, e, _hex, text] =>
+    match c.toInt?, u.toInt?, e.toInt?, parseValue text.toList with
+    | some c, some u, some e, some (v, []) => ({ d with store := upsert d.store k (some v) c u e }, "ok")
+    | _, _, _, _ => (d, "bad-op")
+  | ["plain", k, c, u, e] =>
+    match c.toInt?, u.toInt?, e.toInt? with
+    | some c, some u, some e => ({ d with store := upsert d.store k none c u e }, "ok")
+    | _, _, _ => (d, "bad-op")
+  | ["del", k] => ({ d with store := d.store.filter (·.key != k) }, "ok")
+  | ["q", idx, ord, fr, lim, ft, tt, mx, filt] =>
+    match slotOf idx, fr.toNat?, lim.toNat?, optT ft, optT tt, mx.toNat? with
+    | some sl, some fr, some lim, some ft, some tt, some mx =>
+      let g? : Option (Option Group) := if filt == "-" then some none else (parseGroup filt).map some
+      match g? with
+      | none => (d, "bad-op")
+      | some g =>
+        if d.store.isEmpty then (d, "b=err:noswamp s=err:noswamp") else
+        let q : Query := { slot := sl, asc := ord == "asc", from_ := fr, limit := lim, fromT := ft, toT := tt,
+                           maxResults := mx, filter := g }
+        let b := bucketRoute d.cfg d.store q
+        let s := scanRoute d.cfg d.store q
+        let sNd := cuts q && hasTies q.slot (scanRows q d.store)
+        let bNd := match bucketRows d.cfg q d.store with
+          | some rows => cuts q && hasTies q.slot rows
+          | none => sNd
+        let fl := if bNd || sNd || b == s then "" else String.join ((explain d.cfg d.store q).map (fun f => "\t#F:" ++ f))
+        (d, "b=" ++ (if bNd then "nd" else renderItems b) ++ " s=" ++ (if sNd then "nd" else renderItems s) ++ fl)
+    | _, _, _, _, _, _ => (d, "bad-op")
+  | _ => (d, "bad-op")
+
+def yes (kv : List (String × String)) (k : String) : Bool := arg kv k == "yes"
+
+def run (args : List String) : IO UInt32 := do
+  let kv := parseArgs args
+  let ops := ((arg kv "indexableOps").splitOn ",").filterMap opOf
+  let cfg : Cfg := {
+    indexableOps := ops, excludesSpecialPaths := yes kv "excludesSpecialPaths",
+    planOrBypassOnSubGroups := yes kv "planOrBypassOnSubGroups", scanEqCanonical := yes kv "scanEqCanonical",
+    bucketPagingAfterFilter := yes kv "bucketPagingAfterFilter", scanPagingAfterFilter := yes kv "scanPagingAfterFilter",
+    labelReattach := yes kv "labelReattach", bucketChecksAttr := yes kv "bucketChecksAttr",
+    lookupInDedupes := yes kv "lookupInDedupes", unionDedupes := yes kv "unionDedupes",
+    bucketWindowTimeOnly := yes kv "bucketWindowTimeOnly" }
+  lineLoop step { cfg := cfg, store := [] }
+  return 0
 
 end Driver.C08
